@@ -114,6 +114,9 @@ class _IncrementalState:
     def get_state(self) -> Optional[Dict[str, Any]]:
         return _unflatten(self.flat_state)
 
+    def is_none(self) -> bool:
+        return len(self.flat_state) == 1 and () in self.flat_state and self.flat_state[()] is None
+
 
 class _IncrementalWorkerState:
     def __init__(self, initial_worker_state_dict: Optional[Dict[str, Any]]):
@@ -139,7 +142,8 @@ class _IncrementalWorkerState:
         incr_state_dict = {_WORKER_ID: self._worker_id, _FETCHER_STATE: None}
 
         ds_state = new_state_dict.get(_DATASET_STATE, None)
-        if ds_state is not None:
+        if ds_state is not None or not self._incr_dataset_state.is_none():
+            # A state that turns into None must be transferred too
             incr_state_dict[_DATASET_STATE] = self._incr_dataset_state.generate_delta(ds_state)
 
         fetcher_state = new_state_dict.get(_FETCHER_STATE, None)
@@ -148,7 +152,7 @@ class _IncrementalWorkerState:
 
             delta_iter_state = None
             iter_state = fetcher_state.get(_DATASET_ITER_STATE, None)
-            if iter_state is not None:
+            if iter_state is not None or not self._incr_fetcher_iter_state.is_none():
                 delta_iter_state = self._incr_fetcher_iter_state.generate_delta(iter_state)
 
             incr_state_dict[_FETCHER_STATE] = {
